@@ -1,7 +1,7 @@
 (* C06 — composition with the decoder theorems of C07: no decoder hypothesis is left, and the
    bytes a datagram can add to a fragment buffer are bounded by its length. *)
 From DustDDS Require Import Base.Machine Base.Bytes Wire.WireModel Wire.WireProofs Wire.WireTotalProofs
-  Wire.WireMemProofs Wire.RecvModel Wire.RecvProofs.
+  Wire.WireMemProofs Wire.RecvModel Wire.RecvProofs Wire.RecvRangeProofs.
 Open Scope Z_scope.
 
 Lemma param_mem_nonneg : forall ps, 0 <= sumZ (map param_mem ps).
@@ -31,12 +31,12 @@ Proof.
 Qed.
 
 Theorem handle_datagram_total : forall C st bytes,
-  InvC C st -> C + 26 * len bytes <= FRAG_CAP -> C06_known_dgram bytes = false ->
+  InvC C st -> C + 26 * len bytes <= FRAG_CAP -> bytes_ok bytes ->
   exists st' o, handle_datagram st bytes = Ok (st', o) /\ InvC (C + 26 * len bytes) st' /\
                 length (ps_readers st') = length (ps_readers st).
 Proof.
   intros C st bytes HI HC HK. pose proof (frag_bytes_linear bytes) as [F0 F1].
-  destruct (handle_datagram_ok C st bytes HI ltac:(lia) (parse_message_total bytes) HK) as (st' & o & E1 & E2 & E3).
+  destruct (handle_datagram_ok C st bytes HI ltac:(lia) (parse_message_total bytes) (decoded_in_range bytes HK)) as (st' & o & E1 & E2 & E3).
   exists st', o. split; [exact E1|]. split; [|exact E3]. eapply InvC_weaken; [|exact E2]. lia.
 Qed.
 
@@ -48,21 +48,21 @@ Qed.
 
 (* every sequence of datagrams outside the classes *)
 Theorem run_datagrams_total : forall ds C st,
-  InvC C st -> C + 26 * sumZ (map (@len Z) ds) <= FRAG_CAP -> Forall (fun d => C06_known_dgram d = false) ds ->
+  InvC C st -> C + 26 * sumZ (map (@len Z) ds) <= FRAG_CAP -> Forall bytes_ok ds ->
   exists st', run_datagrams st ds = Ok st' /\ InvC (C + 26 * sumZ (map (@len Z) ds)) st'.
 Proof.
   intros ds C st HI HC HF. pose proof (total_frag_bytes_linear ds) as HL.
   destruct (run_datagrams_ok ds C st HI ltac:(lia)) as (st' & E1 & E2).
-  { eapply Forall_impl; [|exact HF]. intros d Hd. split; [apply parse_message_total|exact Hd]. }
+  { eapply Forall_impl; [|exact HF]. intros d Hd. split; [apply parse_message_total|apply decoded_in_range; exact Hd]. }
   exists st'. split; [exact E1|]. eapply InvC_weaken; [|exact E2]. lia.
 Qed.
 
 Theorem datagram_steps_bounded : forall C st bytes, 0 <= C ->
-  InvC C st -> C + 26 * len bytes <= FRAG_CAP -> C06_known_dgram bytes = false ->
+  InvC C st -> C + 26 * len bytes <= FRAG_CAP -> bytes_ok bytes ->
   0 <= datagram_steps st bytes <= steps_bound (len (subs_of bytes)) (len (ps_readers st)) (C + 26 * len bytes).
 Proof.
   intros C st bytes HC0 HI HC HK. pose proof (frag_bytes_linear bytes) as [F0 F1].
-  pose proof (datagram_steps_bound C st bytes HC0 HI ltac:(lia) HK) as [S0 S1]. split; [exact S0|].
+  pose proof (datagram_steps_bound C st bytes HC0 HI ltac:(lia) (decoded_in_range bytes HK)) as [S0 S1]. split; [exact S0|].
   eapply Z.le_trans; [exact S1|]. unfold steps_bound.
   pose proof (len_nonneg _ (subs_of bytes)). pose proof (len_nonneg _ (ps_readers st)).
   pose proof (step_cap_mono (C + frag_bytes (subs_of bytes)) (C + 26 * len bytes) ltac:(lia)) as M.
